@@ -31,7 +31,7 @@ META = {
     "C12": {
         "engine": "A-structs", "design_ref": "DESIGN.md section 3 (C12)",
         "technique": "bounded-exhaustive operation-sequence enumeration + rapidcheck stateful model-based testing against std::vector models",
-        "level_text": "Exhaustive over all op sequences up to length 5 (quick) / 6 (thorough) of a fixed alphabet for queue, stack and list, plus random sequences up to 80 ops; every step compared with an array model, destructor log and allocator balance. Establishes the property for the explored sequences only.",
+        "level_text": "Exhaustive over all op sequences up to length 5 (quick) / 6 (thorough) of a fixed alphabet for queue, stack and list (without comparator, with an equality comparator and with an asymmetric one), plus random sequences up to 80 ops; every step compared with an array model, destructor log and allocator balance. Establishes the property for the explored sequences only.",
         "level_note": "Trusts the C++ reference model, the read-back through m_*_iterate (cross-checked by len/peek/dequeue), clang ASan/UBSan; spec corners listed in DESIGN.md 8.2 are not judged.",
     },
 }
@@ -69,7 +69,7 @@ CHECKS["C10"] = {
 META["C05"] = {
     "engine": "A-structs", "design_ref": "DESIGN.md section 3 (C05)",
     "technique": "rapidcheck stateful model-based testing against std::map with hook-steered colliding/wrapping key pools",
-    "level_text": "Random operation sequences over all flag combinations with key pools steered (through the guarded hook) onto shared home slots at the table end/start, across growth; every step compared with a std::map model, visited-exactly-once for both iteration styles, destructor log and allocator accounting. Holds for explored sequences only.",
+    "level_text": "Random operation sequences over all flag combinations with key pools steered (through the guarded hook) onto shared home slots at the table end/start, probe runs longer than half the table (one key per consecutive home slot), across growth; every step compared with a std::map model, visited-exactly-once for both iteration styles, destructor log and allocator accounting. Holds for explored sequences only.",
     "level_note": "Trusts the std::map model, clang ASan/UBSan, the tracking allocator installed via m_set_memhook; the hook m_map_verif_slot only steers generation and classification (no oracle uses it).",
 }
 META["C10"] = {
@@ -103,7 +103,7 @@ _B_NOTE = "Trusts: the lock-step reference model (harness/actor, written from th
 def _metaB(pid, sec, text):
     META[pid] = {"engine": "B-actor", "design_ref": "DESIGN.md section 4 (%s)" % sec,
                  "technique": "rapidcheck stateful / model-based testing of generated actor programs with re-entrant callback scripts against a lock-step reference model (fork per case, ASan/UBSan)",
-                 "level_text": text + " Holds for the explored programs only (<= 4 modules, <= 70 top-level ops, callback scripts <= 4 re-entrant ops, nesting depth <= 4); both driving modes (harness-issued m_ctx_dispatch calls and a blocking m_ctx_loop run by a driver module); injected polling faults; thorough tier adds a coverage-guided libFuzzer campaign over byte-decoded programs.",
+                 "level_text": text + " Holds for the explored programs only (<= 4 modules, <= 70 top-level ops, callback scripts <= 4 re-entrant ops, nesting depth <= 4); both driving modes (harness-issued m_ctx_dispatch calls and a blocking m_ctx_loop run by a driver module); injected polling faults; allocator refusals at chosen allocations of context / source registration, m_mod_become and the loop start; thorough tier adds a coverage-guided libFuzzer campaign over byte-decoded programs.",
                  "level_note": _B_NOTE}
 _metaB("C01", "C01", "Life-cycle calls in every state (about half illegal), callbacks that refuse / stop / deregister re-entrantly, evaluation passes: each return code, each start/stop/eval/handler callback and every state/running-count probe is checked against the documented state machine.")
 _metaB("C02", "C02", "Sends of all kinds over literal and regex subscriptions in mixed module states, floods beyond the pipe size, auto-free payloads: eligibility sets computed by the model at send time, every delivered event matched against the recipient's mailbox, loop-end delivery obligation, payload release accounting.")
@@ -139,7 +139,7 @@ ENGINES.append({"name": "C-thpool", "path": "harness/thpool", "serves_properties
 META["C06"] = {
     "engine": "C-thpool", "design_ref": "DESIGN.md section 5",
     "technique": "property-based schedule exploration: rapidcheck-generated schedules executed by a harness-owned cooperative scheduler (link-time pthread interposition) + generated real-thread configurations under ThreadSanitizer",
-    "level_text": "Generated schedules at lock/condition/thread-call granularity for pools of 1-4 threads (eager, lazy, detached), 1-3 submitters and both shutdown modes: exactly-once, bounds, shutdown contract, no use after destroy, deadlock and primitive misuse are verdicts of the controlled run; race freedom is sampled with real threads under ThreadSanitizer. Explored schedules only; no exhaustive enumeration.",
+    "level_text": "Generated schedules at lock/condition/thread-call granularity for pools of 1-4 threads (eager, lazy, detached), 1-3 submitters, both shutdown modes and deep queues (33-56 tasks behind a task held in progress until the freeing thread waits inside m_thpool_free): exactly-once, bounds, shutdown contract, no use after destroy, deadlock and primitive misuse are verdicts of the controlled run; race freedom is sampled with real threads under ThreadSanitizer. Explored schedules only; no exhaustive enumeration.",
     "level_note": "Trusts the scheduler shim's model of mutex/condition semantics (harness/thpool/sched.cpp), ASan, ThreadSanitizer's happens-before analysis.",
 }
 
